@@ -1,11 +1,136 @@
 /-
-  C15 — property theorems (see DESIGN.md §6 C15).  Helper lemmas live in Proofs/.
+  C15 — placeholders are substituted as data and survive the preamble transport.
+
+  `readForm` on a `$name` token, `Preamble.addPreamble`, `Preamble.readWithPreamble` are the Lean
+  mirrors of read_placeholder / AddPreamble / READWithPreamble (tied to the Go code on every run by
+  the `preamble`, `read` and `rwp` engines).
+  Property theorems only (helper lemmas live in Proofs/Preamble.lean).
 -/
 import LispModel.Read
 import LispModel.Print
 import LispModel.Preamble
 import LispModel.Spec.Readable
+import LispModel.Util
+import LispModel.Proofs.Preamble
 namespace LispModel.Props.C15
-open LispModel
+open LispModel LispModel.Read LispModel.Scan LispModel.Preamble
+
+/-- a token whose spelling starts with `$` and is not a bracket / reader-macro spelling -/
+def isPlaceholderTok (t : Token) : Prop := t.text.head? = some 36
+
+/-- Values are inserted as data: a placeholder token is replaced by exactly its value, consuming
+    exactly that token — nothing inside the value is looked at again by the reader. -/
+theorem placeholder_inserted_as_data (cfg : Cfg) (fuel : Nat) (t : Token) (rest : List Token)
+    (m : List (String × Val)) (v : Val)
+    (ht : isPlaceholderTok t) (hm : cfg.phs = some m) (hv : alookup (tokStr t) m = some v) :
+    readForm (fuel + 1) cfg (t :: rest) = .ok (v, rest) :=
+  Proofs.Preamble.placeholder_inserted_as_data cfg fuel t rest m v ht hm hv
+
+/-- A placeholder without a value reads as nil. -/
+theorem missing_placeholder_is_nil (cfg : Cfg) (fuel : Nat) (t : Token) (rest : List Token)
+    (m : List (String × Val))
+    (ht : isPlaceholderTok t) (hm : cfg.phs = some m) (hv : alookup (tokStr t) m = none) :
+    readForm (fuel + 1) cfg (t :: rest) = .ok (.nil, rest) :=
+  Proofs.Preamble.missing_placeholder_is_nil cfg fuel t rest m ht hm hv
+
+/-- Placeholder-looking text inside a string literal is untouched: a String token is read by
+    `read_atom`, whatever `$names` its text contains. -/
+theorem placeholder_in_string_untouched (cfg : Cfg) (fuel : Nat) (t : Token) (rest : List Token)
+    (hk : t.kind = .string) (hq : t.text.head? = some 34) :
+    readForm (fuel + 1) cfg (t :: rest) = (readAtom cfg t).map (fun v => (v, rest)) :=
+  Proofs.Preamble.placeholder_in_string_untouched cfg fuel t rest hk hq
+
+/-- names over letters, digits, '-' and '_' -/
+def IsName (name : List UInt8) : Prop := name ≠ [] ∧ ∀ b ∈ name, isNameByte b = true
+
+/-- One preamble line `;; $name <value text>` is taken apart into exactly the name and the value
+    text, for every name over the name alphabet and every one-line value text that does not begin or
+    end with white space (printed values never do). -/
+theorem preamble_line_parses (name value : List UInt8) (hn : IsName name)
+    (hv : value ≠ []) :
+    matchLine (prefixBytes ++ name ++ [32] ++ value) = some (name, value) :=
+  Proofs.Preamble.preamble_line_parses name value hn hv
+
+/-- `strings.Cut` + `Trim` give the line back: a line without newline, not starting or ending in a
+    trim byte, followed by a newline and the rest. -/
+theorem cut_trim_line (line rest : List UInt8) (hnl : (10 : UInt8) ∉ line)
+    (hf : ∀ b, line.head? = some b → isTrimByte b = false)
+    (hl : ∀ b, line.getLast? = some b → isTrimByte b = false) :
+    cutLine (line ++ 10 :: rest) = (line, rest) ∧ trim line = line :=
+  Proofs.Preamble.cut_trim_line line rest hnl hf hl
+
+/-- Transport of one placeholder: a preamble consisting of the line for `name ↦ v` (any `v` whose
+    printed form is one line, survives trimming and reads back as `v'`), a blank line and the source
+    reads as the source with the table `{$name ↦ v'}`. -/
+theorem transport_one (cfg : Cfg) (name : List UInt8) (v v' : Val) (src : List UInt8)
+    (hn : IsName name)
+    (text : List UInt8) (htext : text = (String.ofList (Print.print v)).toUTF8.toList)
+    (hne : text ≠ []) (hnl : (10 : UInt8) ∉ text)
+    (hf : ∀ b, text.head? = some b → isTrimByte b = false)
+    (hl : ∀ b, text.getLast? = some b → isTrimByte b = false)
+    (hread : readStr { cfg with phs := none, module := none } text = .ok v') :
+    readWithPreamble cfg (prefixBytes ++ name ++ [32] ++ text ++ [10] ++ [10] ++ src) =
+      (match readStr { cfg with phs := some [("$" ++ bytesToString name, v')] } src with
+       | .ok r => .ok r
+       | .error e => .err e) :=
+  Proofs.Preamble.transport_one cfg name v v' src hn text htext hne hnl hf hl hread
+
+/-- one entry of a preamble — name (without the `$`), value, the value as re-read, its printed text —
+    satisfying the hypotheses of `transport_one` -/
+def EntryOK (cfg : Cfg) (e : Proofs.Preamble.Entry) : Prop :=
+  IsName e.1 ∧
+  e.2.2.2 = (String.ofList (Print.print e.2.1)).toUTF8.toList ∧
+  e.2.2.2 ≠ [] ∧ (10 : UInt8) ∉ e.2.2.2 ∧
+  (∀ b, e.2.2.2.head? = some b → isTrimByte b = false) ∧
+  (∀ b, e.2.2.2.getLast? = some b → isTrimByte b = false) ∧
+  readStr { cfg with phs := none, module := none } e.2.2.2 = .ok e.2.2.1
+
+/-- Transport of any number of placeholders: the preamble lines `;; $name <text>` of the entries
+    (`preambleLines`), a blank line and the source read as the source with the table that holds, for
+    every entry in order, `$name ↦ re-read value` (`tableOf` = `ainsert` entry after entry, so a
+    repeated name keeps its first position and its last value). -/
+theorem transport_faithful (cfg : Cfg) (phs : List Proofs.Preamble.Entry) (src : List UInt8)
+    (hok : ∀ e ∈ phs, EntryOK cfg e) :
+    readWithPreamble cfg (Proofs.Preamble.preambleLines phs ++ [10] ++ src) =
+      (match readStr { cfg with phs := some (Proofs.Preamble.tableOf phs) } src with
+       | .ok r => .ok r
+       | .error e => .err e) :=
+  Proofs.Preamble.transport_many cfg phs src hok
+
+/-- … and with pairwise different names the table is exactly the list of the entries. -/
+theorem transport_faithful_distinct (cfg : Cfg) (phs : List Proofs.Preamble.Entry)
+    (src : List UInt8) (hok : ∀ e ∈ phs, EntryOK cfg e)
+    (hpw : phs.Pairwise (fun a b => a.1 ≠ b.1)) :
+    readWithPreamble cfg (Proofs.Preamble.preambleLines phs ++ [10] ++ src) =
+      (match readStr { cfg with
+          phs := some (phs.map (fun e => ("$" ++ bytesToString e.1, e.2.2.1))) } src with
+       | .ok r => .ok r
+       | .error e => .err e) := by
+  rw [← Proofs.Preamble.tableOf_distinct phs (fun e he => (hok e he).1.2) hpw]
+  exact transport_faithful cfg phs src hok
+
+/-- the hypotheses instantiated on a concrete preamble with two entries, checked by evaluation of the
+    scanner / reader / printer models -/
+example :
+    readWithPreamble {} (bytes% ";; $a 1\n;; $b-2 \"x\"\n\n(f $a $b-2)") =
+      (match readStr { phs := some [("$a", .int 1), ("$b-2", .str "x")] } (bytes% "(f $a $b-2)") with
+       | .ok r => .ok r
+       | .error e => .err e) :=
+  transport_faithful {}
+    [(bytes% "a", .int 1, .int 1, bytes% "1"), (bytes% "b-2", .str "x", .str "x", bytes% "\"x\"")]
+    (bytes% "(f $a $b-2)") (by
+      intro e he
+      simp only [List.mem_cons, List.not_mem_nil, or_false] at he
+      rcases he with rfl | rfl
+      · exact ⟨⟨by decide, by decide⟩, by rw [Proofs.Preamble.toUTF8_ofList]; decide, by decide, by decide,
+          by intro b hb; cases hb; decide, by intro b hb; cases hb; decide, by rfl⟩
+      · exact ⟨⟨by decide, by decide⟩, by rw [Proofs.Preamble.toUTF8_ofList]; decide, by decide, by decide,
+          by intro b hb; cases hb; decide, by intro b hb; cases hb; decide, by rfl⟩)
+
+/-- the known finding D12, machine-checked on the model: a `{"…}`-shaped string with a newline is
+    printed raw over two lines, so its preamble line does not survive the line-oriented reader -/
+theorem multiline_raw_value_breaks_transport :
+    '\n' ∈ Print.print (.str "{\"k\":\n1}") := by
+  decide
 
 end LispModel.Props.C15
